@@ -54,6 +54,10 @@ Definition is_boolean_literal (t : token) : bool := isT t TyTrue || isT t TyFals
 Definition is_quantifier (t : token) : bool := isT t TyAny || isT t TyAll.
 Definition is_json_operator (t : token) : bool := isT t TyJsonOp.
 
+(* ast.IsNiladicFunctionName *)
+Definition niladic_names : list string := ["CURRENT_DATE"; "CURRENT_TIME"; "CURRENT_TIMESTAMP"; "LOCALTIME"; "LOCALTIMESTAMP"].
+Definition is_niladic (name : string) : bool := existsb (String.eqb (upper name)) niladic_names.
+
 Definition type_keywords : list string :=
   ["INT"; "INTEGER"; "BIGINT"; "SMALLINT"; "FLOAT"; "DOUBLE"; "DECIMAL"; "NUMERIC"; "VARCHAR"; "CHAR"; "TEXT";
    "BOOLEAN"; "DATE"; "TIME"; "TIMESTAMP"; "INTERVAL"; "BLOB"; "CLOB"; "JSON"; "UUID"].
@@ -261,6 +265,8 @@ Section Ladder.
       if isT (cur ts) TyLParen then
         do (f, ts1) <- parse_function_call d name ts;
         if eqfold name "MATCH" && litfold (cur ts1) "AGAINST" then Unmodelled else Val (f, ts1)
+      else if negb (isT t TyDQuoted) && negb (isT (cur ts) TyPeriod) && is_niladic name then
+        Val (GFunc name [] false None [] [] None, ts)        (* CURRENT_DATE & co.: function calls without parentheses *)
       else
         do (ident, ts) <- (if isT (cur ts) TyPeriod then
                               let ts := advance ts in
